@@ -55,11 +55,11 @@ var (
 // object with a later anchor.
 func universe(n int) []*triple.Triple {
 	u := []*triple.Triple{
-		model.T(na, model.PI("p"), model.ON(nb)),           // 0
-		model.T(na, model.PT("p", t0x), model.ON(nb)), // 1
-		model.T(na, model.PT("p", model.T1), model.ON(nb)), // 2
-		model.T(na, model.PT("p", model.T1), model.ON(nc)), // 3 tie with 2
-		model.T(na, model.PT("q", t2x), opT1),         // 4 temporal predicate as object
+		model.T(na, model.PI("p"), model.ON(nb)),                         // 0
+		model.T(na, model.PT("p", t0x), model.ON(nb)),                    // 1
+		model.T(na, model.PT("p", model.T1), model.ON(nb)),               // 2
+		model.T(na, model.PT("p", model.T1.In(zonePlus2)), model.ON(nc)), // 3 tie with 2: the same instant written in another zone
+		model.T(na, model.PT("q", t2x), opT1),                            // 4 temporal predicate as object
 		// 5: ANOTHER object predicate id under the SAME triple predicate: "latest" on the object
 		// field groups by the object's predicate id, not by the triple's
 		model.T(na, model.PT("q", t2x), opR0),
